@@ -31,6 +31,7 @@ def human_strikes(N, humans, I, gap, t0, rows, early=0.004, shift_after=None, sh
 
 class C14(scen.PairProp):
     id = "C14"
+    fuzz_kinds = {"ring", "r_init", "r_bell", "r_setting"}
     lean_module = "Wheatley.Props.C14"
     theorems = ["Wheatley.C14.wake_is_inner_plus_delay",
                 "Wheatley.C14.delay_after_wait",
